@@ -202,6 +202,25 @@ package types
 //@   ensures @denom err == nil ==> validDenom(p.Denom)
 //@   ensures @fees_positive err == nil ==> p.FeeRegister >= 1 && p.FeeRecord >= 1 && p.FeePurchaseStorage >= 1
 //@   ensures @limits err == nil ==> p.DefaultStorageLimit >= 1 && p.MaxStorageLimit >= 1 && p.DefaultStorageLimit <= p.MaxStorageLimit
+//@   ensures @accepts_every_valid_set validDenom(p.Denom) && p.FeeRegister >= 1 && p.FeeRecord >= 1 && p.FeePurchaseStorage >= 1 && p.DefaultStorageLimit >= 1 && p.DefaultStorageLimit <= p.MaxStorageLimit ==> err == nil
+
+// Genesis validation accepts exactly the documents whose parameters are valid, whose registrations carry an id, an owner,
+// a moniker and a storage limit, and whose retained timestamps carry an id, a hash and a submit time (C15: what export
+// writes must be accepted again; C16: a document with invalid parameters never reaches the store).
+//@ func ValidateGenesis(data) (err)
+//@   props C15 C16
+//@   pure
+//@   let bs := data.RegisteredBeacons
+//@   ensures @params_valid err == nil ==> validDenom(data.Params.Denom) && data.Params.FeeRegister >= 1 && data.Params.FeeRecord >= 1 && data.Params.FeePurchaseStorage >= 1 && data.Params.DefaultStorageLimit >= 1 && data.Params.DefaultStorageLimit <= data.Params.MaxStorageLimit
+//@   ensures @registrations_wellformed err == nil ==> forall j int :: {bs[j]} 0 <= j && j < len(bs) ==> bs[j].Beacon.BeaconId >= 1 && bs[j].Beacon.Owner != "" && bs[j].Beacon.Moniker != "" && bs[j].InStateLimit >= 1
+//@   ensures @timestamps_wellformed err == nil ==> forall j int, b int :: {bs[j].Timestamps[b]} 0 <= j && j < len(bs) && 0 <= b && b < len(bs[j].Timestamps) ==> bs[j].Timestamps[b].Id >= 1 && bs[j].Timestamps[b].H != "" && bs[j].Timestamps[b].T >= 1
+//@   ensures @rejects_only_malformed err != nil ==> !(validDenom(data.Params.Denom) && data.Params.FeeRegister >= 1 && data.Params.FeeRecord >= 1 && data.Params.FeePurchaseStorage >= 1 && data.Params.DefaultStorageLimit >= 1 && data.Params.DefaultStorageLimit <= data.Params.MaxStorageLimit) || exists j int :: 0 <= j && j < len(bs) && (bs[j].Beacon.BeaconId == 0 || bs[j].Beacon.Owner == "" || bs[j].Beacon.Moniker == "" || bs[j].InStateLimit == 0 || exists b int :: 0 <= b && b < len(bs[j].Timestamps) && (bs[j].Timestamps[b].Id == 0 || bs[j].Timestamps[b].H == "" || bs[j].Timestamps[b].T == 0))
+//@   loop 0: invariant 0 - 1 <= rangeindex && rangeindex < len(bs)
+//@   loop 0: invariant validDenom(data.Params.Denom) && data.Params.FeeRegister >= 1 && data.Params.FeeRecord >= 1 && data.Params.FeePurchaseStorage >= 1 && data.Params.DefaultStorageLimit >= 1 && data.Params.DefaultStorageLimit <= data.Params.MaxStorageLimit
+//@   loop 0: invariant forall j int :: {bs[j]} 0 <= j && j <= rangeindex ==> bs[j].Beacon.BeaconId >= 1 && bs[j].Beacon.Owner != "" && bs[j].Beacon.Moniker != "" && bs[j].InStateLimit >= 1
+//@   loop 0: invariant forall j int, b int :: {bs[j].Timestamps[b]} 0 <= j && j <= rangeindex && 0 <= b && b < len(bs[j].Timestamps) ==> bs[j].Timestamps[b].Id >= 1 && bs[j].Timestamps[b].H != "" && bs[j].Timestamps[b].T >= 1
+//@   loop 1: invariant 0 - 1 <= rangeindex && rangeindex < len(record.Timestamps)
+//@   loop 1: invariant forall b int :: {record.Timestamps[b]} 0 <= b && b <= rangeindex ==> record.Timestamps[b].Id >= 1 && record.Timestamps[b].H != "" && record.Timestamps[b].T >= 1
 
 //@ global ParamsKey abstracts bea_key(ParamsKey) == kBParams
 //@ global HighestBeaconIDKey abstracts bea_key(HighestBeaconIDKey) == kBHighest
